@@ -1,5 +1,7 @@
 import Proofs.Lemmas.Meth
 import Proofs.Lemmas.MethStr
+import Proofs.Lemmas.MethStore
+import Proofs.Lemmas.MethStoreObl
 /-!
 # C15 — array and string methods behave as documented (Node.js-style)
 
@@ -265,5 +267,122 @@ theorem C15_str_startsWith_refines (s : List Char) (p : String) (more : List Val
 
 theorem C15_str_endsWith_refines (s : List Char) (p : String) (more : List Val) :
     Model.MethStr.endsWith s (.str p :: more) = .bool (Spec.JsStr.endsWith s p.toList) := rfl
+
+
+/-! ## the storage the callback methods work on
+
+`Model.MethStore` runs the nine callback-taking methods on explicit storage: the
+receiver's slots (which a callback can change through a captured reference), the
+snapshot `sourceValues` that is re-wrapped for the callback's array argument at
+every invocation, and the result buffer, whose place is a parameter (`OutBuf`).
+The callback is script code with effects (`ECb`: it answers a value and the
+receiver afterwards).  The theorems: with a result buffer of its own (`fresh`,
+what the code does — obligation `C15_storage_layout` on the regenerated facts)
+nothing the method writes is visible through the callback's arguments, the
+method never writes the receiver, and the storage-level run is the list
+recursion of `Model.Meth` (hence, by the theorems above, the documented
+behaviour); with the result carved out of the snapshot (`inSnap`, the "filter
+in place" idiom) or out of the receiver (`inRecv`) this is false. -/
+
+section Storage
+open Model.MethStore (OutBuf Kind ECb Ev St ofCb ofPred ofCb4 runRes trace)
+open Proofs.MethStore (Quiet)
+
+/-- **What a callback is given does not depend on anything the method or the callback writes.**
+For every method, every receiver and every callback — whatever it does to the receiver through a
+reference, whatever it returns — each invocation gets as array argument the receiver's elements as of
+the start of the call, and as element the entry of that array at the index it is given. -/
+theorem C15_store_callback_sees_source (kind : Kind) (cb : ECb) (xs args : List Val) :
+    ∀ ev ∈ trace .fresh kind cb xs args, ev.inv.arr = xs ∧ xs[ev.inv.idx]? = some ev.inv.el := by
+  unfold trace
+  cases h : Model.MethStore.run .fresh kind cb xs args with
+  | none => intro ev hev; cases hev
+  | some r =>
+    obtain ⟨v, s, t⟩ := r
+    exact Proofs.MethStore.run_fresh_args kind cb xs args v s t h
+
+example : (trace .fresh .filter (fun inv recv => (.bool (inv.idx != 0), recv.set 0 (.int 99)))
+    [.int 3, .int 5, .int 1] []).map (fun ev => (ev.inv.el, ev.inv.arr, ev.recv))
+  = [(.int 3, [.int 3, .int 5, .int 1], [.int 3, .int 5, .int 1]),
+     (.int 5, [.int 3, .int 5, .int 1], [.int 99, .int 5, .int 1]),
+     (.int 1, [.int 3, .int 5, .int 1], [.int 99, .int 5, .int 1])] := by rfl
+
+/-- **The method itself never writes the receiver**: after a call whose callback leaves the receiver
+alone, the receiver is what it was (all nine methods, any arguments). -/
+theorem C15_store_receiver_untouched (kind : Kind) (cb : ECb) (hq : Quiet cb) (xs args : List Val)
+    (o : Out) (h : runRes .fresh kind cb xs args = .ok o) : o.recv = xs :=
+  Proofs.MethStore.runRes_recv_quiet kind cb hq xs args o h
+
+/-- **The storage-level run is `Model.Meth`** for callbacks without effects: the result does not depend on
+where the working storage is, as long as the result buffer is the method's own. -/
+theorem C15_store_refines (xs args : List Val) (f : Cb) (p : Pred) (g : Cb4) :
+    runRes .fresh .map (ofCb f) xs args = map xs f ∧
+    runRes .fresh .filter (ofPred p) xs args = filter xs p ∧
+    runRes .fresh .flatMap (ofCb f) xs args = flatMap xs f ∧
+    runRes .fresh .find (ofPred p) xs args = find xs p ∧
+    runRes .fresh .findIndex (ofPred p) xs args = findIndex xs p ∧
+    runRes .fresh .every (ofPred p) xs args = every xs p ∧
+    runRes .fresh .someP (ofPred p) xs args = someP xs p ∧
+    runRes .fresh .reduce (ofCb4 g) xs args = reduce xs g args ∧
+    runRes .fresh .forEach (ofCb f) xs args = (forEach xs).1 ∧
+    (trace .fresh .forEach (ofCb f) xs args).map (fun ev => (⟨ev.inv.el, ev.inv.idx, ev.inv.arr⟩ : CallEv))
+      = (forEach xs).2 :=
+  ⟨Proofs.MethStore.map_refines f xs args, Proofs.MethStore.filter_refines p xs args,
+   Proofs.MethStore.flatMap_refines f xs args, Proofs.MethStore.find_refines p xs args,
+   Proofs.MethStore.findIndex_refines p xs args, Proofs.MethStore.every_refines p xs args,
+   Proofs.MethStore.some_refines p xs args, Proofs.MethStore.reduce_refines g xs args,
+   (Proofs.MethStore.forEach_refines (ofCb f) (Proofs.MethStore.ofCb_quiet f) xs args).1,
+   (Proofs.MethStore.forEach_refines (ofCb f) (Proofs.MethStore.ofCb_quiet f) xs args).2⟩
+
+/-- a predicate that reads its array argument at an earlier position: "greater than the first element" -/
+def gtFirst : Pred := fun e _ a =>
+  match e, a.head? with
+  | .int x, some (.int y) => decide (x > y)
+  | _, _ => false
+
+/-- **Result buffer carved out of the snapshot** (`result := sourceValues[:0]`): once an element has been
+rejected, every kept element overwrites an earlier entry of what the next invocation is shown —
+`[3,5,1,4]->filter(fn($x,$i,$a) => $x > $a[0])` answers `[5]`, not `[5,4]`. -/
+theorem C15_store_inSnap_counterexample :
+    runRes .inSnap .filter (ofPred gtFirst) [.int 3, .int 5, .int 1, .int 4] []
+      = .ok ⟨.list [.int 5], [.int 3, .int 5, .int 1, .int 4]⟩ ∧
+    filter [.int 3, .int 5, .int 1, .int 4] gtFirst
+      = .ok ⟨.list [.int 5, .int 4], [.int 3, .int 5, .int 1, .int 4]⟩ ∧
+    (trace .inSnap .filter (ofPred gtFirst) [.int 3, .int 5, .int 1, .int 4] []).map (fun ev => ev.inv.arr)
+      = [[.int 3, .int 5, .int 1, .int 4], [.int 3, .int 5, .int 1, .int 4],
+         [.int 5, .int 5, .int 1, .int 4], [.int 5, .int 5, .int 1, .int 4]] :=
+  ⟨by rfl, by rfl, by rfl⟩
+
+/-- **Result buffer carved out of the receiver**: a method documented as non-mutating changes its receiver. -/
+theorem C15_store_inRecv_counterexample :
+    runRes .inRecv .filter (ofPred gtFirst) [.int 3, .int 5, .int 1, .int 4] []
+      = .ok ⟨.list [.int 5, .int 4], [.int 5, .int 4, .int 1, .int 4]⟩ := by rfl
+
+/-- **The code has the layout the theorems are about** (regenerated from `data/value_array*.go` on every
+run): every callback method stores only into buffers of its own, runs its loop over the snapshot, hands
+that snapshot (re-wrapped) to the callback and invokes it through `data.callArrayCallback`, which creates
+a context per invocation, binds the declared parameters only and reads a missing result as null; no type
+implements `data.CallableValue` (the other branch of these methods); the callback-free non-mutators store
+only into buffers of their own; all 22 method objects are accounted for. -/
+theorem C15_storage_layout :
+    Proofs.MethStoreObl.StorageOK Generated.C15Storage.methods Generated.C15Storage.helperFreshCtx
+      Generated.C15Storage.helperBindsDeclared Generated.C15Storage.helperNilIsNull
+      Generated.C15Storage.callableImplementers Generated.C15Storage.shapeChanged = true := by decide
+
+/-- hence every callback method of the source has the `fresh` layout of `Model.MethStore` -/
+theorem C15_storage_callbacks_fresh :
+    ∀ m ∈ Generated.C15Storage.methods, Proofs.MethStoreObl.callbackMethods.contains m.name = true →
+      Proofs.MethStoreObl.layoutOf m = some .fresh ∧ m.loops.all Proofs.MethStoreObl.loopOK = true :=
+  Proofs.MethStoreObl.callback_fresh_of_ok _ _ _ _ _ _ C15_storage_layout
+
+/-- the obligation is not vacuous: the seeded layout (`filter` storing into the snapshot) is rejected -/
+example : Proofs.MethStoreObl.methodOK
+    ⟨"filter", "data/value_array_filter.go", false, [⟨"*FuncValue", ["copy"], ["copy"], "helper"⟩], ["copy"], ["copy"]⟩
+    = false := by decide
+example : Proofs.MethStoreObl.layoutOf
+    ⟨"filter", "data/value_array_filter.go", false, [⟨"*FuncValue", ["copy"], ["copy"], "helper"⟩], ["copy"], ["copy"]⟩
+    = some .inSnap := by decide
+
+end Storage
 
 end C15
